@@ -179,7 +179,7 @@ def one(k, site, base_gen):
         hbin = os.path.join(hd, "target", "debug", "abyss-harness")
         evd = os.path.join(WORK, "ev%d" % k)
         rpd = os.path.join(WORK, "rp%d" % k)
-        env = dict(ENV, ABYSS_TIE_ONLY="1", ABYSS_HARNESS_BIN=hbin, ABYSS_EVIDENCE_DIR=evd, ABYSS_REPLAY_DIR=rpd, VERIF_SEED="1")
+        env = dict(ENV, ABYSS_TIE_ONLY="1", ABYSS_HARNESS_BIN=hbin, ABYSS_DRIVER_BIN=os.path.join(WORK, "abyss-driver"), ABYSS_EVIDENCE_DIR=evd, ABYSS_REPLAY_DIR=rpd, VERIF_SEED="1")
         hits = {}
         t0 = time.time()
         for pid in PROPS:
@@ -242,6 +242,8 @@ def main():
         rc, out = sh([sys.executable, os.path.join(ROOT, "tools", "rs2lean.py"), wt0, bg])
         assert rc == 0, out
         base_gen = norm_gen(bg)
+        if not os.path.exists(os.path.join(WORK, "abyss-driver")):
+            shutil.copy2(os.path.join(ROOT, "lean", ".lake", "build", "bin", "abyss-driver"), os.path.join(WORK, "abyss-driver"))
         import queue, threading
         q = queue.Queue()
         for s in todo:
